@@ -19,7 +19,17 @@ FLAT_TYPES = [
     ("f32", "FLOAT", None, None, None), ("f64", "DOUBLE", None, None, None),
     ("bytes", "BYTE_ARRAY", None, None, None), ("utf8", "BYTE_ARRAY", 0, None, None),
     ("flba", "FIXED_LEN_BYTE_ARRAY", None, None, 5),
+    # DECIMAL (converted type 5) over every physical type the format allows; (precision, scale) in DECIMALS
+    ("dec_i32", "INT32", 5, None, None), ("dec_i64", "INT64", 5, None, None),
+    ("dec_f2", "FIXED_LEN_BYTE_ARRAY", 5, None, 2), ("dec_f5", "FIXED_LEN_BYTE_ARRAY", 5, None, 5),
+    ("dec_f8", "FIXED_LEN_BYTE_ARRAY", 5, None, 8), ("dec_f12", "FIXED_LEN_BYTE_ARRAY", 5, None, 12),
 ]
+DECIMALS = {"dec_i32": (9, 2), "dec_i64": (18, 3), "dec_f2": (4, 2), "dec_f5": (11, 4), "dec_f8": (18, 1), "dec_f12": (28, 6)}
+
+
+def _dec_unscaled(tname, v):
+    """Unscaled integer of a stored DECIMAL value."""
+    return int(v) if not isinstance(v, (bytes, bytearray)) else int.from_bytes(v, "big", signed=True)
 TYPE_BY_NAME = {t[0]: t for t in FLAT_TYPES}
 CODECS = ["UNCOMPRESSED", "SNAPPY", "GZIP", "ZSTD", "LZ4_RAW", "BROTLI"]
 NULL_PATTERNS = ["none", "first", "last", "alt", "p20", "p80", "all", "runs"]
@@ -53,6 +63,16 @@ def gen_values(tname, n, rng, distinct=None):
     """Physical values for n non-null cells.  distinct = number of distinct values wanted (for dictionary width)."""
     t = TYPE_BY_NAME[tname]
     ptype, conv = t[1], t[2]
+    if tname in DECIMALS and (distinct is None or distinct <= 0):
+        prec, scale = DECIMALS[tname]
+        lim = 10 ** prec - 1
+        ints = [int(x) for x in rng.integers(-min(lim, 2 ** 62), min(lim, 2 ** 62), n, endpoint=True)]
+        for i, e in enumerate([-1, 0, 1, -lim, lim, -256, 255]):
+            if i < n:
+                ints[i] = e
+        if ptype in ("INT32", "INT64"):
+            return ints
+        return [int(x).to_bytes(t[4], "big", signed=True) for x in ints]
     if distinct is not None and distinct > 0:
         base = gen_values(tname, distinct, rng)
         # make them distinct
@@ -178,6 +198,8 @@ def make_spec(recipe):
         it = iter(vals)
         rows = [None if m else next(it) for m in mask]
         cs = {"name": rc["name"], "ptype": t[1], "converted": t[2], "logical": t[3], "type_length": t[4], "optional": bool(rc.get("optional")), "rows": rows}
+        if rc["type"] in DECIMALS:
+            cs["precision"], cs["scale"] = DECIMALS[rc["type"]]
         for k in ("use_dict", "dict_fallback_page", "dict_encoding_id", "encoding", "page_rows", "page_version", "def_plan", "idx_plan", "v2_compressed",
                   "delta_shape", "write_stats", "dict_extra", "v1_trailing", "min_index_width"):
             if k in rc and rc[k] is not None:
@@ -204,6 +226,8 @@ def filler_for(t):
     if ptype == "BYTE_ARRAY":
         return lambda i: ("filler-%d" % i).encode()
     if ptype == "FIXED_LEN_BYTE_ARRAY":
+        if t[4] != 5:
+            return lambda i: (i % (256 ** min(t[4], 4))).to_bytes(t[4], "big")
         return lambda i: struct.pack("<I", i) + b"\x01"
     if ptype == "INT96":
         return lambda i: struct.pack("<qi", i, 2440588)
@@ -255,6 +279,10 @@ def expected_cell(tname, v):
         return None
     t = TYPE_BY_NAME[tname]
     ptype, conv = t[1], t[2]
+    if tname in DECIMALS:
+        # fastparquet's documented reading of DECIMAL: float64 = unscaled * 10**-scale
+        f = _dec_unscaled(tname, v) * (10 ** -DECIMALS[tname][1])
+        return ("f8", struct.unpack("<Q", struct.pack("<d", f))[0])
     if ptype == "BOOLEAN":
         return ("b", bool(v))
     if ptype == "INT96":
